@@ -95,6 +95,12 @@ class SimProbe:
         def checkJump(x, x_new, x_lims, t, jump_time, jumps):
             probe.counters["checkjump_calls"] += 1
             xn = np.asarray(x_new, dtype=float)
+            # the limits the model hands to its own step check must cover every state: the check pairs states with limits one by one,
+            # so a shorter list leaves the trailing states unchecked (lower limit 0 included)
+            probe.counters["limits_cover_checks"] = probe.counters.get("limits_cover_checks", 0) + 1
+            if len(x_lims) < xn.size:
+                raise MonitorViolation("the model hands its step check limits for fewer states than it has (the trailing states are not checked)",
+                                       states=int(xn.size), limit_entries=len(x_lims))
             ok, why = inside(xn, probe.limits if probe.limits is not None else x_lims)
             # only proposals that can become part of a path are judged (a proposal outside the limits is discarded; with astronomically
             # large Poisson counts - see K-02 - its float components do not even sum exactly)
